@@ -1,9 +1,9 @@
 SPECIFICATION Spec
 CONSTANTS
   NameOrd <- MCNameOrd
-  Universe <- U_q1
-  ValOpts <- V_q1
-  RegOpts <- R_q1
+  Universe <- U_t0
+  ValOpts <- V_t0
+  RegOpts <- R_t0
   MaxLoads = 3
   RegPhases = {0, 1}
   WithBad = FALSE
@@ -11,3 +11,4 @@ CONSTANTS
 VIEW View
 INVARIANTS TypeOK ParsedFresh
 PROPERTIES BSat_C15_Values BSat_C15_Leftovers BSat_C15_FileNodes BSat_C15_Idempotent BSat_C15_SettingHook BSat_C15_ObjectHook BSat_C15_Register
+ACTION_CONSTRAINT Emit
